@@ -62,11 +62,13 @@ def run(ctx):
     ctx.sample({"row": {k: x0[k] for k in ("name", "j", "v", "bytes")}, "mutants": len(x0["muts"])})
 
     nproc = 2 if q else 4
-    classes, totals, layouts, drift = set(), {"encodes": 0, "decodes": 0, "cuts": 0, "muts": 0, "skipped": 0}, {}, {}
+    classes, totals, layouts, drift = set(), {"encodes": 0, "decodes": 0, "cuts": 0, "muts": 0, "skipped": 0, "bigskip": 0}, {}, {}
     crashes = 0
-    for p in range(nproc):
-        out = ctx.driver(b, ["rows"], input_obj=inp, env={"VERIF_SHUFFLE": str(p + 1), "VERIF_NSHUF": "8" if q else "12"},
-                         timeout=3000)
+    from concurrent.futures import ThreadPoolExecutor
+    with ThreadPoolExecutor(max_workers=nproc) as ex:      # fresh processes: Go seeds its map iteration per process
+        outs = list(ex.map(lambda p: ctx.driver(b, ["rows"], input_obj=inp, timeout=3000,
+                                                env={"VERIF_SHUFFLE": str(p + 1), "VERIF_NSHUF": "8" if q else "12"}), range(nproc)))
+    for p, out in enumerate(outs):
         nstat = 0
         for o in out:
             if o.get("rowstat"):
@@ -142,7 +144,8 @@ def run(ctx):
              "outcome) tuples. P-VALIDATE: %d recorded decoder calls on random corruptions judged by TLC." %
              (nproc, "8" if q else "12", len(events)),
         extra={"rows": len(rows), "types": len(schemas), "cuts": totals["cuts"], "mutants": totals["muts"],
-               "rows_skipped_schema_mismatch": totals["skipped"], "layout_drift_rows": len(layouts)},
+               "rows_skipped_schema_mismatch": totals["skipped"], "layout_drift_rows": len(layouts),
+               "mutants_not_repeated_after_fatal_crash_of_their_decoder": totals["bigskip"]},
         assumptions=["values per field come from boundary menus (0, 0xFC, 0xFD, 0xFFFF, 0x10000, 2^32-1, 2^32, 2^64-1; byte strings of "
                      "0/1/3/252/253 bytes, 65535/65536 in the thorough tier) varied one field at a time plus seeded combinations; "
                      "maps of 0..3 entries (0..6 thorough) with keys chosen to separate byte order, reversed-byte order and length order",
